@@ -39,11 +39,21 @@ func (c *Cluster) Submit(n *Node, val string, kind int, timeout time.Duration) i
 	}
 	c.rec.Emit("invoke", Ev{"op": op, "node": n.id, "inc": n.inc, "call": "submit", "kind": kind, "val": val, "timeout": int(timeout / time.Microsecond)})
 	c.clients.Add(1)
+	if kind == 0 {
+		c.mu.Lock()
+		n.pendingOps++
+		c.mu.Unlock()
+	}
 	go func() {
 		defer c.clients.Done()
 		defer c.recoverCall(op, n)
 		f := n.r.SubmitOperation([]byte(val), raft.OperationType(kind), timeout)
 		res := f.Await()
+		if kind == 0 {
+			c.mu.Lock()
+			n.pendingOps--
+			c.mu.Unlock()
+		}
 		if n.ghost.Load() {
 			return // the client of a crashed process never hears back
 		}
